@@ -242,7 +242,13 @@ def run_rich(kind, step, nt, orders, lens):
 
                     def native(rq=rq, step=step, order=order, nt=nt, tnum=tnum, hnum=hnum):
                         return tuple(ex.Richardson(step_ratio=rq, step=step, order=order, num_terms=nt)(tnum, hnum))
-                    xcheck.defer('engine==CPython(Richardson.__call__)', (new, err, st), asg, native, pinv_log=list(PINV_LOG)[:1],
+                    try:
+                        a_, i_ = xcheck.complete_assignment(asg)
+                        cond = float(np.linalg.cond(np.asarray(xcheck.concretize(np.asarray(PINV_LOG[0][0], dtype=object), a_, i_), dtype=complex))) if PINV_LOG else 1.0
+                    except Exception:
+                        cond = float('inf')
+                    if cond < 1e8:      # beyond that scipy's pinv drops singular values (outside the pinv contract)
+                      xcheck.defer('engine==CPython(Richardson.__call__)', (new, err, st), asg, native, pinv_log=list(PINV_LOG)[:1],
                                  rtol=1e-7 if (order + step * max(nt - 1, 0)) * T <= 12 else 1e-3, atol=1e-9)   # scipy's pinv cuts small singular values of ill-conditioned M
                 if order == orders[0] and K == Ks[-1] and T > 0:
                     solve.twin('S:new[0]==seq[0]', zero(new[0, 0] - tab[0, 0]), pre)
